@@ -116,6 +116,57 @@ impl Script for C15Script {
                         learn(&mut self.known, t);
                         self.payloads_sent += 1;
                         w.probe("tablet_payload_sent");
+                    } else if tape::chance("c15:unusable_payload", 1, 12) {
+                        // A payload that describes no token range (empty or inverted: the
+                        // right bound is not above the left one) or is not even well-formed.
+                        // It teaches nothing: everything learnt so far stays as it is.
+                        let x = if tape::chance("c15:unusable_low", 1, 2) { self.layout[0].last } else { t.first_excl };
+                        let mut bad = Tab { first_excl: x, last: i64::MIN, replicas: vec![(rq.node, 0)] };
+                        let kind = tape::choose("c15:unusable_kind", 5);
+                        let mut bytes = match kind {
+                            0 => payload(&bad, &self.host_ids),
+                            1 => {
+                                bad.first_excl = t.last;
+                                bad.last = t.last;
+                                payload(&bad, &self.host_ids)
+                            }
+                            2 => {
+                                bad.first_excl = t.last;
+                                bad.last = t.first_excl.max(i64::MIN + 1);
+                                payload(&bad, &self.host_ids)
+                            }
+                            _ => {
+                                bad.first_excl = t.first_excl;
+                                bad.last = t.last;
+                                payload(&bad, &self.host_ids)
+                            }
+                        };
+                        match kind {
+                            3 => {
+                                // Not at 24: a tuple cut after its second component is a
+                                // well-formed tuple again (trailing components null), i.e.
+                                // a different payload - a tablet without replicas - whose
+                                // treatment the property does not fix.
+                                let mut cut = tape::range("c15:unusable_cut", 0, bytes.len() as u64 - 1) as usize;
+                                if cut == 24 {
+                                    cut = 23;
+                                }
+                                bytes.truncate(cut)
+                            }
+                            4 => {
+                                // shard number -1: last four bytes of the only replica tuple
+                                let n = bytes.len();
+                                bytes[n - 4..].copy_from_slice(&(-1i32).to_be_bytes());
+                            }
+                            _ => {}
+                        }
+                        if kind == 2 && bad.last >= bad.first_excl {
+                            return env;
+                        }
+                        env.custom_payload = vec![("tablets-routing-v1".into(), bytes)];
+                        w.fault(Fault::Garbage);
+                        w.probe("unusable_tablet_payload_sent");
+                        w.log(&format!("unusable_tablet_payload kind={kind} first_excl={} last={} token={token}", bad.first_excl, bad.last));
                     }
                 }
             }
